@@ -12,6 +12,7 @@ import (
 	"fmt"
 	"net"
 	"net/netip"
+	"time"
 
 	"github.com/pion/stun/v3"
 )
@@ -181,4 +182,65 @@ func (s *vfSwitch) inject(src, dst netip.AddrPort, data []byte) *vfDgram {
 	s.inflight = append(s.inflight, d)
 
 	return d
+}
+
+// ---------------------------------------------------------------- fake STUN server on the switch
+
+// vfStunServer is a harness-controlled STUN server: requests are parked until the
+// workload decides to answer (or never does).
+type vfStunServer struct {
+	sw   *vfSwitch
+	sock *vfConn
+	peer *vfPeer // reuses the manual-socket inbox
+	addr netip.AddrPort
+}
+
+func newVfStunServer(sw *vfSwitch, ip string, port int) (*vfStunServer, error) {
+	n := vfSimpleNet(sw, "S", ip)
+	c, err := n.ListenUDP("udp", &net.UDPAddr{IP: net.ParseIP(ip), Port: port})
+	if err != nil {
+		return nil, err
+	}
+	vc := c.(*vfConn) //nolint:forcetypeassert
+	p := &vfPeer{name: "S", answered: map[string]bool{}}
+	vc.manual = p
+
+	return &vfStunServer{sw: sw, sock: vc, peer: p, addr: vc.local}, nil
+}
+
+// pump moves everything addressed to the server from the in-flight pool to its inbox and returns the parked requests.
+func (s *vfStunServer) pump() []*vfDgram {
+	for _, id := range s.sw.inflightIDs() {
+		s.sw.mu.Lock()
+		var d *vfDgram
+		for _, x := range s.sw.inflight {
+			if x.ID == id {
+				d = x
+			}
+		}
+		s.sw.mu.Unlock()
+		if d != nil && d.Dst == s.addr {
+			_, _ = s.sw.deliverID(id, false)
+		}
+	}
+	out := s.peer.inbox
+	s.peer.inbox = nil
+
+	return out
+}
+
+// reply answers a parked Binding request with the given mapped address and delivers the response.
+func (s *vfStunServer) reply(req *vfDgram, mapped netip.AddrPort) (bool, error) {
+	m := &stun.Message{Raw: append([]byte{}, req.Data...)}
+	if err := m.Decode(); err != nil {
+		return false, nil //nolint:nilerr
+	}
+	out, err := stun.Build(stun.NewTransactionIDSetter(m.TransactionID), stun.BindingSuccess,
+		&stun.XORMappedAddress{IP: mapped.Addr().AsSlice(), Port: int(mapped.Port())})
+	if err != nil {
+		return false, nil //nolint:nilerr
+	}
+	d := s.sw.emit(s.sock, req.Src, out.Raw, false)
+
+	return s.sw.handOver(d.ID, 2*time.Second), nil
 }
